@@ -99,6 +99,9 @@ class FrameItem(EFLRItem):
 
         index_channel: ChannelItem = self.channels.value[0]
         index_data = data[index_channel.name][:]
+        if index_channel.cast_dtype is not None and index_data.dtype != index_channel.cast_dtype:
+            # the rows are written in the cast dtype: the index characteristics must describe them as written
+            index_data = index_data.astype(index_channel.cast_dtype)
 
         if self.index_type.value is None:
             # according to RP66, if index_type is None:
